@@ -1001,7 +1001,10 @@ def _do_run(wd, op, step, before):
                 continue
             else:
                 odd.append(i)
-        if rexc is not None and odd:
+        # a raise may also come from ANOTHER member that fails on its own (no parameters, bad parameters): then the
+        # member with the unexplained result is the one in which the fault was swallowed
+        natural = any(exp[j][0] in ("exc", "gate") for j in targets if j not in odd)
+        if rexc is not None and odd and not natural:
             i = odd[0]
             wd.violate("fault.wrong_state", step,
                        f"the call raised {type(rexc).__name__} under an injected fault, yet {w['algs'][i]['name']} now holds a result "
